@@ -262,7 +262,7 @@ theorem loopback_stop_deadlocks :
     .write, .forkTake, .forkLock, .forkPut, .node 0 .take, .node 0 .put, .write, .forkTake, .write] ++ stops 5 ++
     [.node 0 .exit] ++ stops 2 ++ [.thrExit], by decide⟩
 
-/-- defect repaired by 31646cb (`Cfg.udfFwdOrphan = true` is the code before; it was the known finding
+/-- defect repaired by 1cdc7d1 (`Cfg.udfFwdOrphan = true` is the code before; it was the known finding
 `udf-above-failed-node-blocks-stop`): `stream → @udf → failing node`: when the node below a UDF node
 fails, only the UDF node's FORWARDING goroutine sees ErrAborted and returns; the node keeps its UDF running with
 nobody reading its output, stops consuming, and its full input edge blocks the nodes above it. The stop waits
